@@ -116,4 +116,11 @@ func init() {
 		"Static race-freedom argument by ownership: (1) objects reachable from a Client/Handler are written only under construction (allocated in the same function, option application, or constructors) and package-level variables only in init; (2) pooled buffers given back to the pool never escape the function (no stored/returned alias of the buffer or its Bytes()), Put is deferred or the last use, the retained final-envelope buffer is never Put; (de)compressors are touched only by get/put helpers with Reset on both sides and exactly one put per get; "+
 			"(3) the one cross-goroutine hand-off inside a call is ordered by close(responseReady): every user-callable method touches fields written by the request goroutine only after an unconditional receive from responseReady, which is closed exactly once, deferred; duplexHTTPCall.err is only accessed under errMu, with nothing blocking called under the lock; (4) the send and receive sides of a stream-capable client conn write disjoint fields.",
 		"interleavings as such, races inside net/http or user codecs/compressors, value integrity under the race detector, per-call confinement of values handed to user code.")
+
+	prop("C01", "Every message sent is received intact, in order, exactly once",
+		[]string{"holder-fresh", "frame-layout", "pool-ownership", "pool-hygiene", "min-bytes-gate", "compress-flag-wiring", "compression-roles", "copyn-loop", "full-read", "typed-nil"},
+		"(1) no typed stream wrapper reuses a message holder across Receive calls while an unmarshal core can return success without invoking the codec (the zero-length shortcut), so a zero-valued message never shows the previous message's fields; "+
+			"(2) envelope writer and reader agree on the prefix layout (byte order, length bytes, flag byte, 5-byte size) and the length written is that of the buffer copied next; the full declared payload is read whatever the segmentation; (3) pooled buffers do not escape past their Put and are Reset before reuse; "+
+			"(4) a message is compressed exactly when a pool exists and its size reaches the threshold, the compressed flag is set only then, and both sides select (de)compressors from the negotiated header values; (5) no *Error that may be nil is converted to a non-nil error on a success path.",
+		"codec and compressor losslessness, ordering and exactly-once delivery (they follow from a single sequential reader per direction, not checked), behaviour of net/http, the size classes around 512 B / 8 MiB as such.")
 }
